@@ -680,6 +680,13 @@ _ed5.clause = ('_eventDone (completion countdown): unless a handler still waits,
                'finished closure, <name>_complete exactly when a counter reaches zero and was requested, tracking attributes deleted, '
                'ascend; no path (cancelled, failed, no feedback requested) skips the walk')
 SPECS.append(_ed5)
+# ... and under C06: "the caller is resumed only after every handler of the awaited event (suspended ones included) has finished" is
+# the first clause of this contract - <name>_done, which resumes the caller, is not fired while waitingHandlers > 0
+_ed6 = _copy.copy(SPECS[-2])
+_ed6.prop = 'C06'
+_ed6.clause = ('_eventDone (what resumes a call()/wait() caller): nothing - in particular no <name>_done - is fired while a handler of the '
+               'event is still suspended, whether or not another handler raised')
+SPECS.append(_ed6)
 
 
 # ============================================================================= Manager._fire / fireEvent (C02, C03, C05)
